@@ -128,9 +128,70 @@ def matcher_table(unit, fn, takes_message):
                     return call(callee.get("name"), [evl.ev(a) for a in A.kids(n)[1:]], n)
                 return NotImplemented
             ev = FD.Eval(deref=deref, call=call, node_hook=hook, max_steps=4000)
-            r = ev.call_function(unit, fn, [_PB, _MB if takes_message else _AB])
+            try:
+                r = ev.call_function(unit, fn, [_PB, _MB if takes_message else _AB])
+            except FD.Unknown as e:
+                # a copy that presupposes the ':' it stands on (asserts it, or steps over it unread) has no verdict for
+                # a pattern without one; whether it is ever handed such a pattern is decided at its call sites
+                if not pat.startswith(":") and ("read past the end of the pattern" in str(e) or "__assert_fail" in str(e)):
+                    table[(pat, args, junk)] = None
+                    continue
+                raise
             table[(pat, args, junk)] = 1 if r else 0
     return table
+
+
+def _colon_guarded_callers(unit, fn):
+    """every call of fn from outside its own body hands over a pointer variable that stands on a ':' - the call sits in the
+    then-branch of `if(*v == ':')`, or behind an earlier `if(*v != ':') return ...;` of an enclosing block with no store to
+    v in between.  -> (True, sites) | (False, reason)"""
+    name = fn.get("name")
+    sites = []
+    for q, fns in unit.functions.items():
+        for g in fns:
+            b = unit.body(g)
+            if b is None or g is fn:
+                continue
+            for c in A.calls_in(b, name):
+                a0 = A.strip_casts(A.kids(c)[1]) if len(A.kids(c)) > 1 else None
+                if a0 is None or a0.get("kind") != "DeclRefExpr":
+                    return False, "call at %s hands over %s" % (A.where(c), A.src(a0)[:40] if a0 else "nothing")
+                v = a0.get("referencedDecl", {}).get("name")
+                vid = a0.get("referencedDecl", {}).get("id")
+                eq = re.compile(r"^\(*\*\s*%s\s*==\s*':'\)*$" % re.escape(v))
+                ne = re.compile(r"^\(*\*\s*%s\s*!=\s*':'\)*$" % re.escape(v))
+                ok = False
+                child = c
+                for anc in unit.ancestors(c):
+                    ks = A.kids(anc)
+                    if anc.get("kind") == "IfStmt" and len(ks) >= 2 and eq.match(A.src(ks[0]).strip()) and any(y is child for y in A.walk(ks[1])):
+                        ok = True
+                        break
+                    if anc.get("kind") == "CompoundStmt":
+                        idx = next((i for i, s_ in enumerate(ks) if any(y is c for y in A.walk(s_))), None)
+                        guard = None
+                        for i, s_ in enumerate(ks[:idx or 0]):
+                            sk = A.kids(s_)
+                            if s_.get("kind") == "IfStmt" and len(sk) == 2 and ne.match(A.src(sk[0]).strip()):
+                                body = sk[1]
+                                last = A.kids(body)[-1] if body.get("kind") == "CompoundStmt" and A.kids(body) else body
+                                if last.get("kind") == "ReturnStmt":
+                                    guard = i
+                        if guard is not None:
+                            stores = [y for s_ in ks[guard + 1:idx] for y in A.walk(s_)
+                                      if (y.get("kind") in ("BinaryOperator", "CompoundAssignOperator") and y.get("opcode", "").endswith("=") and y.get("opcode") not in ("==", "!=", "<=", ">=") and A.ref_id(A.kids(y)[0]) == vid)
+                                      or (y.get("kind") == "UnaryOperator" and y.get("opcode") in ("++", "--", "&") and A.ref_id(A.kids(y)[0]) == vid)]
+                            if not stores:
+                                ok = True
+                                break
+                    if anc.get("kind") in ("FunctionDecl", "CXXMethodDecl"):
+                        break
+                if not ok:
+                    return False, "call at %s is not under a test that the pattern stands on ':'" % A.where(c)
+                sites.append(A.where(c))
+    if not sites:
+        return False, "no call of %s from outside found" % name
+    return True, sites
 
 
 def matcher_clone_obligations(ctx, rule):
@@ -145,6 +206,14 @@ def matcher_clone_obligations(ctx, rule):
         t1 = matcher_table(ud, c1, True)
     except FD.Unknown as e:
         raise AnalysisBroken("%s: dispatch.c:rtosc_match_args not evaluable: %s" % (rule, e))
+    if any(v is None for v in t1.values()):
+        if any(v is None for k, v in t1.items() if k[0].startswith(":")):
+            raise AnalysisBroken("%s: dispatch.c:rtosc_match_args not evaluable on a pattern that starts with ':'" % rule)
+        okg, why = _colon_guarded_callers(ud, c1)
+        if not okg:
+            raise AnalysisBroken("%s: dispatch.c:rtosc_match_args presupposes the ':' it stands on, and %s" % (rule, why))
+        t1 = {k: (v if k[0].startswith(":") else None) for k, v in t1.items()}
+        ctx.note("%s: dispatch.c:rtosc_match_args presupposes the ':' it stands on; every outside call (%s) is made under a test of that ':' - the copies are compared on the patterns that start with one" % (rule, ", ".join(why)))
     others = [("ports.cpp:arg_matcher", u.function("arg_matcher", required=False), False),
               ("ports.cpp:Port_Matcher::rtosc_match_args", u.function("Port_Matcher::rtosc_match_args", required=False), True)]
     present = [(n, f, tm) for n, f, tm in others if f is not None]
@@ -154,8 +223,10 @@ def matcher_clone_obligations(ctx, rule):
             t2 = matcher_table(u, fn, tm)
         except FD.Unknown as e:
             raise AnalysisBroken("%s: %s not evaluable: %s" % (rule, name, e))
-        diff = [{"pattern": k[0], "type_string": k[1], "bytes_after_terminator": k[2], "dispatch.c": t1[k], name: t2[k]} for k in sorted(t1) if t1[k] != t2[k]]
-        ctx.ob(rule, "dispatch.c:rtosc_match_args == %s" % name, not diff, site=A.where(fn), detail={"probes": len(t1), "admitted": sum(t1.values()), "differences": diff[:6]},
+        if any(v is None for v in t2.values()):
+            raise AnalysisBroken("%s: %s has no verdict on a pattern without ':' (its callers hand over a port's whole argument specification)" % (rule, name))
+        diff = [{"pattern": k[0], "type_string": k[1], "bytes_after_terminator": k[2], "dispatch.c": t1[k], name: t2[k]} for k in sorted(t1) if t1[k] is not None and t1[k] != t2[k]]
+        ctx.ob(rule, "dispatch.c:rtosc_match_args == %s" % name, not diff, site=A.where(fn), detail={"probes": sum(1 for v_ in t1.values() if v_ is not None), "admitted": sum(v_ or 0 for v_ in t1.values()), "differences": diff[:6]},
                what="the type-tag matcher %s decides differently from dispatch.c's rtosc_match_args (e.g. %s): which type strings a port admits depends on the lookup strategy" % (name, diff[:2]))
     # call sites of the copy that takes the type string itself
     am = u.function("arg_matcher", required=False)
